@@ -175,6 +175,7 @@ def parse_ps(o):
 
 # ------------------------------------------------------------------ judges
 SRCS_QUICK = ['s', 'b', 'r1', 'rx5']
+SRCS_MID = ['s', 'b', 'r1', 'r3', 'rx5']
 SRCS_ALL = ['s', 'b', 'r1', 'r2', 'r3', 'r7', 'r64', 'rx3', 'rx11']
 
 def run_balanced(binary, lines, tag, stack):
@@ -218,7 +219,7 @@ def judge_ps(ctx, cfg, inputs, aux=None, srcs=None, modes=('s', 'r'), with_is=Tr
     cursor as a unary nat and is quadratic in (length x number of escapes); escape-dense 64 KiB literals go through the model
     on the reader source only and through implementation + reference on all sources."""
     aux = aux or {}
-    srcs = [aux['src']] if 'src' in aux else (srcs or (SRCS_QUICK if ctx.tier == 'quick' else SRCS_ALL))
+    srcs = [aux['src']] if 'src' in aux else (srcs or (SRCS_QUICK if ctx.tier == 'quick' else SRCS_MID))
     modes = [aux['mode']] if 'mode' in aux else modes
     v = []
     utf8 = [gen.is_utf8(d) for d in inputs]
@@ -262,7 +263,7 @@ def judge_ps(ctx, cfg, inputs, aux=None, srcs=None, modes=('s', 'r'), with_is=Tr
                             viol('borrowed-flag', 'reader input is never borrowed')
                         elif bw and text != d[:cur - 1]:
                             viol('borrowed-not-input', 'a borrowed result is the input subslice')
-                        if not ctx.quiet:
+                        if not ctx.quiet and src == 'b':
                             ctx.distinct_nontrivial += 1
                 elif pa is not None:
                     viol('accepts-bad-literal', 'reference: rejected (%s)' % r[1])
@@ -537,7 +538,7 @@ def gen_long(ctx, dense):
     minority of cases — one or more offending pieces, a missing closing quote, a trailer after the quote.
     dense: escapes everywhere; otherwise at most ~150 escape pieces per literal (long runs in between)"""
     rng = ctx.rng
-    n = (150 if ctx.tier == 'quick' else 1500) if dense else (300 if ctx.tier == 'quick' else 3000)
+    n = (150 if ctx.tier == 'quick' else 600) if dense else (300 if ctx.tier == 'quick' else 1200)
     for k in range(n):
         target = rng.choice([10, 50, 200, 1000, 5000, 20000, 65536]) if k % 10 else 65536
         out = bytearray()
@@ -588,7 +589,7 @@ def run_c05(ctx):
                 'random 4-byte groups after \\u (quick 2^17, thorough 2^20) and every byte at every hex position; every special byte (", \\, 00, 1f, 20, 7f, 80, ff) at every offset 0..24 in '
                 'strings of every length 0..32, pairs of specials, shifted phases; every Table 3-7 boundary of invalid UTF-8; random long mixed literals up to 64 KiB. '
                 'Each outcome compared with the model (proved against RFC 8259 section 7 in Properties/C05.v) and with an independent Python decoder (text and WTF-8 bytes mode); '
-                'str/slice/reader agree; borrowed iff no escape. non-trivial = accepted literals / strings containing escapable or non-ASCII characters')
+                'str/slice/reader agree; borrowed iff no escape. non-trivial = (literal, mode) pairs accepted on slice input + serialised strings containing escapable or non-ASCII characters')
     for cfg in ctx.cfgs:
         # ---- serializer
         for batch in chunks(gen_scalar_strings(ctx), 200000):
